@@ -376,6 +376,22 @@ def r3_exponent_algebra(ctx):
                   expected={"present": f"baseunits[unit] {op} exp", "absent": f"{op}exp"})
         pre = [norm(s) for s in fn.body]
         ctx.form("baseunits = dict(self.baseunits)" in pre, rel, q, "works on a copy of the left operand's exponents")
+        # no path hands back an operand without merging, unless its guard says the other operand has no units at all
+        from ..flowexpr import paths as _paths
+        NO_UNITS = {"other.nobase": True, "not other.baseunits": True, "len(other.baseunits) == 0": True, "other.baseunits": False, "len(other.baseunits)": False,
+                    "other.baseunits == {}": True}
+        for pth in _paths(fn):
+            r = next((e.resolved for e in pth.events if e.kind == "return"), None)
+            if pth.status != "return" or r is None or norm(r) not in ("self", "other"):
+                continue
+            guards = [(norm(t.resolved), t.extra) for t in pth.tests()]
+            proven = any(NO_UNITS.get(g) is not None and NO_UNITS[g] == v for g, v in guards)
+            what = "the exponents of the right operand are merged on every path (an operand is handed back only when the other one has no units)"
+            if proven:
+                ctx.holds(rel, q, what)
+            else:
+                ctx.violated(rel, q, what, detail={"returns": norm(r), "under": [f"{g} is {v}" for g, v in guards]},
+                             expected="a unit with zero dimensions (%, ppth, [pi]) still has a factor: only `nobase` means no units")
     for q, op in (("Atom.__mul__", "*"), ("Atom.__truediv__", "/")):
         fn = ctx.fn(US, q)
         mg = [s for s in fn.body if isinstance(s, ast.Assign) and norm(s.targets[0]) == "magnitude" and isinstance(s.value, ast.BinOp)]
@@ -500,6 +516,8 @@ def _replace_exp(node, Esrc):
 
 
 def r5_accumulation(ctx):
+    from . import C06 as _C06
+    _C06.r4_folding(ctx)      # a dimensionless expression folds the factors of exactly the dropped units into the number (shared with C06.R4)
     fn = ctx.fn(BU, "BaseUnits.__init__")
     loops = [s for s in fn.body if isinstance(s, ast.For)]
     if len(loops) != 1:
@@ -602,7 +620,29 @@ def _frac_cell(ctx, mname, kind):
     return h
 
 
+def _float_ratio(ctx):
+    """A non-integral float exponent stands for the small rational it was written as (0.5 = 1/2, 1/3 = 0.333...): the
+    helper that turns it into (numerator, denominator) approximates with a bounded denominator.  The exact binary
+    expansion (float.as_integer_ratio, Fraction(float) alone) gives 6004799503160661/18014398509481984 for 1/3."""
+    fr = "src/scinumtools/units/fraction.py"
+    if not ctx.repo.has_func(fr, "Fraction._ratio"):
+        ctx.form(False, fr, "Fraction._ratio", "the float-to-ratio helper is found")
+        return
+    fn = ctx.fn(fr, "Fraction._ratio")
+    calls = [norm(c.func) for c in ast.walk(fn) if isinstance(c, ast.Call)]
+    bounded = any(c.endswith(".limit_denominator") for c in calls)
+    exact = any(c.endswith(".as_integer_ratio") for c in calls)
+    what = "a float factor becomes the nearest ratio of small integers (bounded denominator)"
+    if bounded:
+        ctx.holds(fr, "Fraction._ratio", what)
+    elif exact:
+        ctx.violated(fr, "Fraction._ratio", what, detail=[c for c in calls if "ratio" in c], expected="fractions.Fraction(x).limit_denominator(N)")
+    else:
+        ctx.form(False, fr, "Fraction._ratio", what, detail=calls)
+
+
 def r6_fraction(ctx):
+    _float_ratio(ctx)
     sn, sd, on, od, o0, o1, k = (Term.sym(x) for x in ("sn", "sd", "on", "od", "o0", "o1", "k"))
     r0, r1 = Term.sym("<Fraction._ratio(other)>[0]"), Term.sym("<Fraction._ratio(other)>[1]")
     from .. import symexpr as _sx
@@ -976,7 +1016,7 @@ RULES = [
     ("C03.R1", "atom parser residual-text discipline: anchored number pattern; anchored exponent suffix; longest table suffix as unit; the remainder is exactly a prefix (whole-string membership) or empty, otherwise an error; no single-character truncation", r1_atom_parser),
     ("C03.R3", "exponent bookkeeping under * and /: present key => old +/- exp, absent key => +/- exp; factors * and /; siblings agree", r3_exponent_algebra),
     ("C03.R4", "per-unit factor (prefix*unit)**exp and dimensions*exp for system, prefixed and plain ids", r4_unit_base),
-    ("C03.R5", "BaseUnits accumulates factors multiplicatively, dimensions additively, drops zero exponents, joins texts with the multiplication symbol", r5_accumulation),
+    ("C03.R5", "BaseUnits accumulates factors multiplicatively, dimensions additively, drops zero exponents, joins texts with the multiplication symbol; folding of cancelled units (shared with C06.R4)", r5_accumulation),
     ("C03.R6", "Fraction arithmetic as identities on (num, den) for Fraction/tuple/int/float operands; equality by cross-multiplication; normal form", r6_fraction),
     ("C03.R7", "renderer/reader agreement: multiplication symbol, exponent alphabet, fraction symbol; no table symbol contains structural characters", r7_render_read),
     ("C03.R8", "table well-formedness; unique spellings; longest-suffix parsing recovers every admissible (prefix, unit) spelling", r8_tables),
